@@ -193,6 +193,7 @@ type liveConn struct {
 	conn net.Conn
 	dir  string
 	ip   int
+	addr string
 }
 
 // runner is one controller under a schedule.
@@ -203,6 +204,7 @@ type runner interface {
 	Ctrl() *cc.ConnectController
 	Statuses() []string
 	Windows() (in, out int)
+	Holding() []string     // addresses of the Connect calls now between a successful tryAddConnecting and removeConnecting (dialer-side view)
 	StartedOver() []string // per attempt: "" or the clause (count already >= limit when its check ran)
 	Live() []liveConn
 	Fatal() bool
@@ -254,6 +256,7 @@ type threadB struct {
 	defers []string
 	out    string
 	over   string
+	hold   bool
 }
 
 // countDir / countHost: the recorded entries, counted from a snapshot (not through the
@@ -396,6 +399,7 @@ func (r *runnerB) execB(t *threadB, op string) string {
 		if !r.ctrl.VerifTryAddConnecting(t.addr) {
 			return "EConnecting"
 		}
+		t.hold = true
 	case "OpDial":
 		if !t.ev.DialOK {
 			return "EDial"
@@ -414,9 +418,10 @@ func (r *runnerB) execB(t *threadB, op string) string {
 		}
 	case "OpSave":
 		w := r.ctrl.VerifSavePeer(&stubConn{raddr: t.addr}, pinfo, idx)
-		r.live = append(r.live, liveConn{conn: w, dir: t.ev.Dir, ip: t.ev.IP})
+		r.live = append(r.live, liveConn{conn: w, dir: t.ev.Dir, ip: t.ev.IP, addr: t.addr})
 	case "OpRemoveConnecting":
 		r.ctrl.VerifRemoveConnecting(t.addr)
+		t.hold = false
 	default:
 		panic("c36: unknown op " + op)
 	}
@@ -468,6 +473,16 @@ func (r *runnerB) Statuses() []string {
 	var s []string
 	for _, t := range r.threads {
 		s = append(s, t.out)
+	}
+	return s
+}
+
+func (r *runnerB) Holding() []string {
+	var s []string
+	for _, t := range r.threads {
+		if t.hold {
+			s = append(s, t.addr)
+		}
 	}
 	return s
 }
@@ -615,7 +630,7 @@ func (r *runnerA) wait(th *threadA) error {
 		th.at = ""
 		th.out = errClass(res.err)
 		if res.err == nil {
-			r.live = append(r.live, liveConn{conn: res.conn, dir: th.ev.Dir, ip: th.ev.IP})
+			r.live = append(r.live, liveConn{conn: res.conn, dir: th.ev.Dir, ip: th.ev.IP, addr: th.addr})
 		}
 		return nil
 	case <-time.After(stepTimeout):
@@ -717,6 +732,18 @@ func (r *runnerA) Statuses() []string {
 	var s []string
 	for _, t := range r.threads {
 		s = append(s, t.out)
+	}
+	return s
+}
+
+// Holding: a Connect goroutine parked in Dial or in the handshake has passed tryAddConnecting and
+// has not returned.
+func (r *runnerA) Holding() []string {
+	var s []string
+	for _, t := range r.threads {
+		if t.ev.Dir == "out" && (t.at == "gD" || t.at == "g1" || t.at == "g2") {
+			s = append(s, t.addr)
+		}
 	}
 	return s
 }
@@ -942,6 +969,62 @@ func oracle(r runner, cfg Cfg, o obsRec, maxWinIn, maxWinOut int, ips []int) *ve
 	return nil
 }
 
+func dup(l []string) string {
+	seen := map[string]bool{}
+	for _, a := range l {
+		if seen[a] {
+			return a
+		}
+		seen[a] = true
+	}
+	return ""
+}
+
+var earlyRefusals = map[string]bool{"Failed ENotReserved": true, "Failed EAlreadyBound": true, "Failed ESelfAddr": true,
+	"Failed EBoundFull": true, "Failed EIpFull": true, "Failed EConnecting": true}
+
+// connOracle: (a) never two Connect calls to one address between tryAddConnecting and
+// removeConnecting, never two established outbound connections to one address; (b) established
+// outbound connections (the dialer's live conns) never exceed the recorded ones; (c) an attempt
+// refused by a pre-handshake check or by tryAddConnecting changes nothing, neither in the step that
+// refuses it nor in anything it runs afterwards. At level B single sections interleave, so two
+// overlapping attempts can legitimately (known finding) end up connected to one address: (a2) and
+// (b) are then reported only when no two outbound attempts ever overlapped; at level A (real
+// Connect) they are unconditional.
+func connOracle(r runner, level string, e Event, o obsRec, preSnap string, preStatus []string, maxWinOut int, refusedEarly map[int]bool) (vs []*verdict) {
+	if a := dup(r.Holding()); a != "" {
+		vs = append(vs, &verdict{"connecting:two-dials-in-flight-same-address", "mutual exclusion per address between tryAddConnecting and removeConnecting", a, "at most one"})
+	}
+	var outs []string
+	for _, k := range r.Live() {
+		if k.dir == "out" {
+			outs = append(outs, k.addr)
+		}
+	}
+	strict := level == "A" || maxWinOut < 2
+	if a := dup(outs); a != "" && strict {
+		vs = append(vs, &verdict{"connecting:two-live-outbound-same-address", "at most one established outbound connection per address", a, "at most one"})
+	}
+	if len(outs) > len(o.snap.Outbounds) && strict {
+		vs = append(vs, &verdict{"limit:live-outbound-exceeds-recorded", "established outbound connections (dialer side) <= recorded outbound entries", len(outs), len(o.snap.Outbounds)})
+	}
+	if e.Kind == "run" || e.Kind == "adv" {
+		post := fmt.Sprintf("%v", o.snap)
+		tid := e.Idx
+		if tid >= 0 && tid < len(o.status) && tid < len(preStatus) {
+			if preStatus[tid] == outPending && earlyRefusals[o.status[tid]] {
+				refusedEarly[tid] = true
+				if post != preSnap {
+					vs = append(vs, &verdict{"connecting:refused-attempt-changed-state", "a refused attempt (" + o.status[tid] + ") changes nothing", post, preSnap})
+				}
+			} else if refusedEarly[tid] && post != preSnap {
+				vs = append(vs, &verdict{"connecting:refused-attempt-changed-state", "a refused attempt runs nothing that changes the state afterwards", post, preSnap})
+			}
+		}
+	}
+	return vs
+}
+
 // nextFn yields the next event of a schedule given the state of the run so far (generated
 // schedules pick among the attempts that have not returned yet); ok=false ends the schedule.
 type nextFn func(r runner, i int) (Event, bool)
@@ -974,6 +1057,8 @@ func runSched(c *hx.Ctx, prog *Prog, s Sched, next nextFn) {
 	maxWinIn, maxWinOut := 0, 0
 	failed := false
 	failedOver := false
+	failedConn := map[string]bool{}
+	refusedEarly := map[int]bool{}
 	saves := 0
 	prevCtrl, prevThr := "", ""
 	for i := 0; ; i++ {
@@ -982,6 +1067,8 @@ func runSched(c *hx.Ctx, prog *Prog, s Sched, next nextFn) {
 			break
 		}
 		s.Events = append(s.Events, e)
+		preSnap := fmt.Sprintf("%v", r.Ctrl().VerifSnapshot())
+		preStatus := r.Statuses()
 		var err error
 		switch e.Kind {
 		case "spawn":
@@ -1021,6 +1108,14 @@ func runSched(c *hx.Ctx, prog *Prog, s Sched, next nextFn) {
 			sort.Ints(ips)
 			if v := oracle(r, s.Cfg, o, maxWinIn, maxWinOut, ips); v != nil {
 				failed = true
+				c.Fail(v.class, v.clause, s, v.got, v.want)
+				c.Count("oracle:" + v.class)
+			}
+		}
+		// clauses about the connecting mark and the dialer-side view, independent of the model
+		for _, v := range connOracle(r, s.Level, e, o, preSnap, preStatus, maxWinOut, refusedEarly) {
+			if !failedConn[v.class] { // each class once per schedule, with the history up to here
+				failedConn[v.class] = true
 				c.Fail(v.class, v.clause, s, v.got, v.want)
 				c.Count("oracle:" + v.class)
 			}
@@ -1240,6 +1335,124 @@ func genNext(c *hx.Ctx, level string, mode int) nextFn {
 	}
 }
 
+// macro: one line of a scripted history; scriptNext expands it interactively.
+type macro struct {
+	kind string // spawn | steps (n steps of attempt tid) | finish (until attempt tid has returned) | close
+	ev   Event
+	tid  int
+	n    int
+}
+
+func scriptNext(level string, script []macro) nextFn {
+	stepKind := "run"
+	if level == "A" {
+		stepKind = "adv"
+	}
+	pos, done, tail := 0, 0, false
+	return func(r runner, i int) (Event, bool) {
+		for pos < len(script) && i < 400 {
+			mc := script[pos]
+			switch mc.kind {
+			case "spawn":
+				pos++
+				return mc.ev, true
+			case "close":
+				pos++
+				return Event{Kind: "close", Idx: mc.n}, true
+			case "steps":
+				st := r.Statuses()
+				if done < mc.n && mc.tid < len(st) && st[mc.tid] == outPending {
+					done++
+					return Event{Kind: stepKind, Idx: mc.tid}, true
+				}
+				done = 0
+				pos++
+			case "finish":
+				st := r.Statuses()
+				if mc.tid < len(st) && st[mc.tid] == outPending {
+					return Event{Kind: stepKind, Idx: mc.tid}, true
+				}
+				if level == "B" && !tail {
+					tail = true // the deferred removeConnecting, if any
+					return Event{Kind: stepKind, Idx: mc.tid}, true
+				}
+				tail = false
+				pos++
+			}
+		}
+		return Event{}, false
+	}
+}
+
+// genSameAddr: 2-4 overlapping Connect calls to ONE address (among them: second refused while the
+// first is in flight, third arriving while the first is still in flight), then the calls
+// complete, closes, and further dials to other addresses.
+func genSameAddr(c *hx.Ctx, level string, prog *Prog) (Cfg, nextFn) {
+	cfg := Cfg{MaxIn: uint(c.Rng.Intn(3)), MaxOut: uint(1 + c.Rng.Intn(3)), MaxPerIP: 2, SelfID: 99}
+	host := hostPool[c.Rng.Intn(len(hostPool))]
+	port := 20338 + c.Rng.Intn(2)
+	pidA := uint64(40 + c.Rng.Intn(3))
+	dialA := func() Event { return spawnEv("out", host, port, pidA, uint16(port)) }
+	// how far the first call gets before the others arrive: level A 1..3 releases (dial gate,
+	// handshake start, handshake end); level B: through tryAddConnecting + defer, then 0..4 more
+	first := 1 + c.Rng.Intn(3)
+	if level == "B" {
+		n := 0
+		for i, it := range prog.Connect {
+			if !it.Defer && it.Op == "OpTryConnecting" {
+				n = i + 1
+			}
+		}
+		if n < len(prog.Connect) && prog.Connect[n].Defer {
+			n++
+		}
+		if n == 0 { // shape not as expected: just go a few sections in
+			n = 5
+		}
+		first = n + c.Rng.Intn(5)
+		if c.Rng.Intn(4) == 0 {
+			first = 1 + c.Rng.Intn(n) // sometimes the others arrive while the first is still in its checks
+		}
+	}
+	var script []macro
+	script = append(script, macro{kind: "spawn", ev: dialA()}, macro{kind: "steps", tid: 0, n: first})
+	tid := 1
+	extra := 1 + c.Rng.Intn(3)
+	var open []int
+	for i := 0; i < extra; i++ {
+		script = append(script, macro{kind: "spawn", ev: dialA()})
+		if c.Rng.Intn(3) == 0 {
+			script = append(script, macro{kind: "steps", tid: tid, n: 1 + c.Rng.Intn(6)})
+			open = append(open, tid)
+		} else {
+			script = append(script, macro{kind: "finish", tid: tid})
+		}
+		tid++
+	}
+	order := append([]int{0}, open...)
+	c.Rng.Shuffle(len(order), func(i, j int) { order[i], order[j] = order[j], order[i] })
+	for _, t := range order {
+		script = append(script, macro{kind: "finish", tid: t})
+	}
+	if c.Rng.Intn(3) != 0 {
+		script = append(script, macro{kind: "close", n: 0})
+	}
+	if c.Rng.Intn(3) == 0 {
+		script = append(script, macro{kind: "spawn", ev: dialA()}, macro{kind: "finish", tid: tid})
+		tid++
+	}
+	more := 2 + c.Rng.Intn(3)
+	for i := 0; i < more; i++ {
+		h := hostPool[c.Rng.Intn(len(hostPool))]
+		script = append(script, macro{kind: "spawn", ev: spawnEv("out", h, 20400+i, uint64(50+i), 20338)}, macro{kind: "finish", tid: tid})
+		tid++
+		if c.Rng.Intn(4) == 0 {
+			script = append(script, macro{kind: "close", n: c.Rng.Intn(2)})
+		}
+	}
+	return cfg, scriptNext(level, script)
+}
+
 // genOvershoot: histories that first push a recorded count over its limit through overlapping
 // attempts (the known finding) and then issue further SEQUENTIAL attempts, which must all be
 // refused. variant 0: inbound total, 1: outbound total, 2: inbound per IP (one host).
@@ -1271,11 +1484,8 @@ func genOvershoot(c *hx.Ctx, level string, prog *Prog) (Cfg, nextFn) {
 		}
 		return e
 	}
-	stepKind := "run"
 	checkSteps := 1
-	if level == "A" {
-		stepKind = "adv"
-	} else {
+	if level != "A" {
 		// sections up to and including the limit checks
 		items := prog.Accept
 		if dir == "out" {
@@ -1287,12 +1497,6 @@ func genOvershoot(c *hx.Ctx, level string, prog *Prog) (Cfg, nextFn) {
 				checkSteps = i + 1
 			}
 		}
-	}
-	type macro struct {
-		kind string // spawn | steps | finish | close
-		ev   Event
-		tid  int
-		n    int
 	}
 	var script []macro
 	tid := 0
@@ -1323,39 +1527,7 @@ func genOvershoot(c *hx.Ctx, level string, prog *Prog) (Cfg, nextFn) {
 		}
 		seq(d)
 	}
-	pos, done, tail := 0, 0, false
-	return cfg, func(r runner, i int) (Event, bool) {
-		for pos < len(script) && i < 400 {
-			mc := script[pos]
-			switch mc.kind {
-			case "spawn":
-				pos++
-				return mc.ev, true
-			case "close":
-				pos++
-				return Event{Kind: "close", Idx: mc.n}, true
-			case "steps":
-				if done < mc.n {
-					done++
-					return Event{Kind: stepKind, Idx: mc.tid}, true
-				}
-				done = 0
-				pos++
-			case "finish":
-				st := r.Statuses()
-				if mc.tid < len(st) && st[mc.tid] == outPending {
-					return Event{Kind: stepKind, Idx: mc.tid}, true
-				}
-				if level == "B" && !tail {
-					tail = true // the deferred removeConnecting, if any
-					return Event{Kind: stepKind, Idx: mc.tid}, true
-				}
-				tail = false
-				pos++
-			}
-		}
-		return Event{}, false
-	}
+	return cfg, scriptNext(level, script)
 }
 
 func Run(c *hx.Ctx) {
@@ -1393,8 +1565,8 @@ func Run(c *hx.Ctx) {
 		}
 	}
 	// 2. generated schedules
-	nA := c.N(120, 600)
-	nB := c.N(330, 2400)
+	nA := c.N(100, 600)
+	nB := c.N(240, 2400)
 	// modes: 0 sequential, 1 sequential churn (few hosts, many closes), 2.. concurrent
 	for _, lv := range []struct {
 		level string
@@ -1410,8 +1582,17 @@ func Run(c *hx.Ctx) {
 			runSched(c, prog, Sched{Level: lv.level, Cfg: cfg}, genNext(c, lv.level, mode))
 		}
 	}
+	// 4. same-address outbound histories (the connecting mark)
+	nS := c.N(24, 250)
+	for _, level := range []string{"A", "B"} {
+		for i := 0; i < nS && (level == "A" || levelB); i++ {
+			cfg, next := genSameAddr(c, level, prog)
+			c.Count("mode:" + level + ":same-address")
+			runSched(c, prog, Sched{Level: level, Name: "same-address dials", Cfg: cfg}, next)
+		}
+	}
 	// 3. overshoot (overlapping attempts) followed by sequential attempts at an over-limit count
-	nO := c.N(40, 250)
+	nO := c.N(24, 250)
 	for _, level := range []string{"A", "B"} {
 		for i := 0; i < nO && (level == "A" || levelB); i++ {
 			cfg, next := genOvershoot(c, level, prog)
